@@ -249,13 +249,13 @@ class _InstallWrapper(IpcCommand):
             insoptions=self.insoptions_default, diroptions=self.diroptions_default
         )
 
-        # initialize file/dir creation coroutines
+    def parse_args(self, *args, **kwargs):
+        # initialize file/dir creation coroutines, an error raised in one finishes it
         self.install = self._install().send
         self.install_dirs = self._install_dirs().send
         self.install_symlinks = self._install_symlinks().send
         self.install_from_dirs = self._install_from_dirs().send
 
-    def parse_args(self, *args, **kwargs):
         args = super().parse_args(*args, **kwargs)
         self.parse_install_options()
         return args
